@@ -57,10 +57,13 @@ impl GC {
         }
     }
 
-    /// Sweeps all objects
+    /// Frees all objects that are (still) managed by this garbage collector
     /// This is automatically called once the Garbage Collector is dropped
     pub fn destroy(&mut self) {
-        self.sweep();
+        for object in self.objects.drain(..) {
+            object.free();
+        }
+        self.mark_bitmap.clear();
         #[cfg(feature = "verif")]
         crate::verif::gc_event(crate::verif::GcEvent::Destroyed {
             managed: &self.objects,
